@@ -6,7 +6,9 @@ from mirsym.lib import PeekableV, VecIter
 
 # D = decimal digit, H = hex digit, O = octal digit, B = binary digit; everything else literal
 DEC_SHAPES = ['D', 'DD', 'DDD', 'D.D', 'DD.DD', '.D', '.DD', 'D_D', 'D_DD.D_D', 'D.DD_D', 'D.D_D_D', 'D DD.D D', 'DeD', 'DED', 'De+D', 'De-D',
-              'D.DeD', 'D.DDe-D', '.DeD', 'D_D.D_De-D', 'DeeD', 'De-DD', 'DD.DDeD_D']
+              'D.DeD', 'D.DDe-D', '.DeD', 'D_D.D_De-D', 'DeeD', 'De-DD', 'DD.DDeD_D',
+              # digit runs around the widths of machine integers (a fast path through i64 / u64 / i128 would show here)
+              'D.' + 'D' * 18, 'D.' + 'D' * 19, '.' + 'D' * 20, 'D' * 19, 'D' * 20 + '.D', 'D' * 39, 'D.' + 'D' * 39]
 RADIX_SHAPES = ['0xH', '0xHH', '0xH_H', '0x_HH', '0xHHH', '0oO', '0oOO', '0oO_O', '0bB', '0bBB', '0bB_BB', '0bBBBB',
                 # full machine-word widths: T = leading digit from {7, 8, f}, N = hex digit restricted to 0-9 (one class: no fork per digit)
                 '0xT' + 'N' * 15, '0xT' + 'N' * 16, '0xT' + 'N' * 7, '0o1' + 'O' * 21, '0o7' + 'O' * 20, '0b1' + 'B' * 3 + '0' * 60, '0b' + '1' * 62 + 'BB']
@@ -186,8 +188,33 @@ class LiteralValue(Harness):
         return False, 'agrees'
 
 
+# literals in which some digit run is empty or holds separators only: whatever they mean, reading them must not panic
+MALFORMED_SHAPES = ['D._', 'D.__', 'D. ', '._', '. ', 'D._eD', 'D.', 'D.eD', 'De', 'De_', 'De+', 'De-_', 'D.De_', 'D_', 'D_.D', 'D _._ D', '0x', '0x_',
+                    '0x _', '0o', '0o_', '0b', '0b_', '0b__B', '0x_H_', 'D.D_', '.D_e_D', 'DeD_', '._D']
+
+
+class MalformedLiteral(LiteralValue):
+    props = ('C04',)
+
+    def __init__(self):
+        LiteralValue.__init__(self, MALFORMED_SHAPES, 'literal.malformed_shapes')
+        self.describe = ('number-like text of %d shapes in which a digit run is empty or made of separators only (%s ...), other digits symbolic: '
+                         'lexer token, then from_parts / parse_radix if it is a number token - no panic') % (len(MALFORMED_SHAPES), ', '.join(MALFORMED_SHAPES[:8]))
+        self.expect_classes = ['Result::Err']
+
+    def post(self, ex, ctx, outcome):
+        return []
+
+    def judge(self, inputs, label, obs):
+        txt = self._text(inputs)
+        q = obs[0]
+        if q.get('outcome') == 'panic' or q.get('render_panic'):
+            return True, '`%s` panics: %s' % (txt, q.get('panic') or q.get('render_panic'))
+        return False, '`%s` answers %s' % (txt, q.get('display'))
+
+
 def harnesses(tier):
-    return [LiteralValue(DEC_SHAPES, 'literal.decimal_shapes'), LiteralValue(RADIX_SHAPES, 'literal.radix_shapes')]
+    return [LiteralValue(DEC_SHAPES, 'literal.decimal_shapes'), LiteralValue(RADIX_SHAPES, 'literal.radix_shapes'), MalformedLiteral()]
 
 
 # ============================================================================================================
@@ -493,6 +520,19 @@ def harnesses(tier):   # noqa: F811
 # ---------------------------------------------------------------------------------------------------------------
 # parse_query: the `-> [digits N] [base B]` suffix.  The digit printers downstream assume 2 <= base <= 36.
 
+def _has_error(v, depth=0):
+    v = deref_all(v)
+    if depth > 12:
+        return False
+    if isinstance(v, Enum):
+        if v.vname == 'Error' and 'Expr' in str(v.ty):
+            return True
+        return any(_has_error(f, depth + 1) for f in v.fields)
+    if isinstance(v, (Struct, Tup, Arr)):
+        return any(_has_error(f, depth + 1) for f in v.fields)
+    return False
+
+
 class ConversionSuffix(Harness):
     name = 'parse_query.conversion_suffix'
     props = ('C04', 'C05', 'C10')
@@ -502,7 +542,7 @@ class ConversionSuffix(Harness):
                 'exactly the base and digit count written, a base outside 2..=36 is an error, nothing panics; a temperature-scale target is '
                 'a scale conversion only when the scale is the whole target (`-> degC / s`, `-> degF m` are compound targets)')
     bounds = ['left-hand side = one identifier; N of 1..3 digits, B of 1..3 digits; target absent, one identifier, a scale, or a scale followed by `/ y` or `y`']
-    TARGETS = [None, 'ident', 'degree', 'degree/ident', 'degree ident']
+    TARGETS = [None, 'ident', 'degree', 'degree/ident', 'degree ident', 'ident/degree', 'ident*degree', 'degree^2', 'ident per degree']
     expect_classes = ['Convert', 'Error']
     _concrete = None
     stubs = ((r'^<Tz as FromStr>::from_str$', lambda ex, nc, a: ex.make_variant('Result', 'Err', ['not a timezone']),
@@ -542,12 +582,17 @@ class ConversionSuffix(Harness):
             toks.append(T('Ident', [bs]))
         if tgt == 'ident':
             toks.append(T('Ident', ['y']))
+        elif tgt in ('ident/degree', 'ident*degree', 'ident per degree'):
+            toks += [T('Ident', ['y']), T({'ident/degree': 'Slash', 'ident*degree': 'Asterisk', 'ident per degree': 'Slash'}[tgt]),
+                     T('Degree', [variant(ex, 'Degree', 'Fahrenheit' if tgt == 'ident per degree' else 'Celsius')])]
         elif tgt:
             toks.append(T('Degree', [variant(ex, 'Degree', 'Celsius')]))
             if tgt == 'degree/ident':
                 toks += [T('Slash'), T('Ident', ['y'])]
             elif tgt == 'degree ident':
                 toks.append(T('Ident', ['y']))
+            elif tgt == 'degree^2':
+                toks += [T('Caret'), T('Decimal', ['2', none(ex), none(ex)])]
         ctx['tgt'] = tgt
         it = PeekableV(RepeatEof(toks, variant(ex, 'Token', 'Eof')))
         return [it], ctx
@@ -593,6 +638,8 @@ class ConversionSuffix(Harness):
             obs.append(('a bare scale is a scale conversion', conv.vname == 'Degree'))
         else:
             obs.append(('a scale followed by more is a compound target, not a scale conversion (got %s)' % conv.vname, conv.vname != 'Degree'))
+            # the scale token cannot open a term: the target expression carries the parser's error, so evaluation refuses it
+            obs.append(('a scale token inside a compound target (%s) is a parse error' % tgt, conv.vname == 'Expr' and _has_error(conv)))
         return obs
 
     def case(self, ctx, vals, label):
@@ -620,13 +667,16 @@ class ConversionSuffix(Harness):
             t += ' base ten'
         elif bs:
             t += ' ' + bs
-        t += {None: '', 'ident': '', 'degree': ' degC', 'degree/ident': ' degC / s', 'degree ident': ' degC m', 0: '', 1: ''}.get(inputs.get('target'), '')
+        t += {None: '', 'ident': '', 'degree': ' degC', 'degree/ident': ' degC / s', 'degree ident': ' degC m', 'ident/degree': ' J / degC',
+              'ident*degree': ' m * degC', 'degree^2': ' degC^2', 'ident per degree': ' J / degF', 0: '', 1: ''}.get(inputs.get('target'), '')
         return t, (int(num('b')) if bs == 'base' else None)
 
     def native(self, inputs, label):
         t, b = self._text(inputs)
-        if str(inputs.get('target') or '').startswith('degree'):
-            return [{'mode': 'query', 'text': t.replace('10/3', '300 K')}]
+        tg = str(inputs.get('target') or '')
+        if 'degree' in tg:
+            lhs = {'degree/ident': '300 K/s', 'ident/degree': '3 J/K', 'ident*degree': '3 m K', 'degree^2': '2 K^2', 'ident per degree': '3 J/K'}.get(tg, '300 K')
+            return [{'mode': 'query', 'text': t.replace('10/3', lhs)}]
         return [{'mode': 'query', 'text': t}, {'mode': 'query', 'text': t.replace('10/3', '255 m')}]
 
     def judge(self, inputs, label, obs):
@@ -639,8 +689,8 @@ class ConversionSuffix(Harness):
                 bad.append('`%s` is answered in base %d: %s' % (t, b, q.get('display')))
             elif inputs['base_clause'] in ('base-eof', 'base-ident') and q.get('outcome') == 'ok':
                 bad.append('`%s` is answered: %s' % (t, q.get('display')))
-            elif inputs.get('target') in ('degree/ident', 'degree ident') and q.get('outcome') == 'ok':
-                bad.append('the compound scale target of `%s` is not refused: %s' % (t.replace('10/3', '300 K'), q.get('display')))
+            elif 'degree' in str(inputs.get('target') or '') and inputs.get('target') != 'degree' and q.get('outcome') == 'ok':
+                bad.append('the compound scale target of `%s` is not refused: %s' % (t.replace('10/3', '<value>'), q.get('display')))
         return bool(bad), '; '.join(bad[:2]) or '`%s` -> %s' % (t, str(obs[0].get('display'))[:80])
 
 
